@@ -151,7 +151,7 @@ def to_scenario(labels: list, pred: list) -> tuple[dict, list[int]]:
             if l[1] != 'killed':
                 steps.append(['child', l[1]])
         if k == 'child':
-            steps.append(['wait_child_exit', 6.0])
+            steps.append(['wait_child_exit', 25.0])
         steps.append(['settle', 0.12, 6.0])
         if k == 'child':
             steps.append(['child_reset'])
@@ -244,12 +244,14 @@ def compare(labels, pred, obs) -> list[dict]:
         model, ended = canon_model(delta, ended)
         impl = per.get(i)
         if impl is None:
-            if i == 0 or any(o.get('k') in ('runner_dead', 'runner_error', 'scenario_timeout') for o in obs):
+            if i == 0 or any(o.get('k') in ('runner_dead', 'runner_error', 'scenario_timeout', 'child_still_alive') for o in obs):
                 break       # the runner itself failed: inconclusive, counted by the caller
             mism.append({'label_index': i, 'label': l, 'model': model, 'impl': 'not reached'})
             break
         # run_info 'finished' outcome canon and order-insensitive comparison within one step
         if sorted(map(json.dumps, model)) != sorted(map(json.dumps, impl)):
+            if any(o.get('k') == 'child_still_alive' for o in obs):
+                break       # the machine was too slow for the child to end within the harness's bound: inconclusive
             mism.append({'label_index': i, 'label': l, 'where': where, 'model': sorted(model), 'impl': sorted(impl)})
             break
     return mism
@@ -284,7 +286,7 @@ def run(ctx, n_cases: int, n_labels: int, rng=None) -> dict:
     n_inconclusive = 0
     hist: dict[str, int] = {}
     for ls, (pr, summ), scn, obs in zip(cases, preds, scns, obs_all):
-        if any(o.get('k') in ('runner_dead', 'runner_error', 'scenario_timeout') for o in obs):
+        if any(o.get('k') in ('runner_dead', 'runner_error', 'scenario_timeout', 'child_still_alive') for o in obs):
             n_inconclusive += 1
         eff = [l for l, p in zip(ls, pr) if p[0]]
         n_eff += len(eff)
